@@ -1,0 +1,142 @@
+//go:build verif
+
+// Contracts for package notifications (property C18). Comment-only: read by /verif/bin/gsv,
+// never compiled into the package.
+
+package notifications
+
+//@ -- deliveries so far: subscriber -> topic -> count
+//@ ghost nNext map[ref]map[ref]int
+//@ ghost nClose map[ref]map[ref]int
+
+//@ func Subscriber.OnNext
+//@   assumed
+//@   params topic, event
+//@   modifies nothing
+//@   ghost nNext := upd(old(nNext), self, upd(old(nNext)[self], topic, old(nNext)[self][topic] + 1))
+//@ func Subscriber.OnClose
+//@   assumed
+//@   params topic
+//@   modifies nothing
+//@   ghost nClose := upd(old(nClose), self, upd(old(nClose)[self], topic, old(nClose)[self][topic] + 1))
+
+//@ -- the abstract subscription relation and the registry's representation invariant
+//@ pred subscribed(reg *subscriberRegistry, t Topic, s Subscriber) := t in reg.topics && s in reg.topics[t]
+//@ pred invReg(reg *subscriberRegistry) := reg.topics != nil && reg.revTopics != nil
+//@    && (forall t Topic :: t in reg.topics ==> reg.topics[t] != nil && isalloc(reg.topics[t]) && len(reg.topics[t]) > 0)
+//@    && (forall s Subscriber :: s in reg.revTopics ==> reg.revTopics[s] != nil && isalloc(reg.revTopics[s]) && len(reg.revTopics[s]) > 0)
+//@    && (forall t Topic, s Subscriber :: subscribed(reg, t, s) <==> (s in reg.revTopics && t in reg.revTopics[s]))
+//@    && (forall t Topic, s Subscriber :: subscribed(reg, t, s) ==> s != nil)
+//@    && (forall t1 Topic, t2 Topic :: t1 in reg.topics && t2 in reg.topics && t1 != t2 ==> reg.topics[t1] != reg.topics[t2])
+//@    && (forall s1 Subscriber, s2 Subscriber :: s1 in reg.revTopics && s2 in reg.revTopics && s1 != s2 ==> reg.revTopics[s1] != reg.revTopics[s2])
+//@ pred othersSame(reg *subscriberRegistry, topic Topic, sub Subscriber) :=
+//@      forall t Topic, s Subscriber :: (t != topic || s != sub) ==> (subscribed(reg, t, s) <==> old(subscribed(reg, t, s)))
+
+//@ func subscriberRegistry.add
+//@   requires invReg(reg) && sub != nil
+//@   modifies alloc, reg.topics[*], reg.revTopics[*], allmaps(reg.topics[topic]), allmaps(reg.revTopics[sub])
+//@   ensures invReg(reg) && subscribed(reg, topic, sub) && othersSame(reg, topic, sub)
+
+//@ -- a removal ends exactly one subscription and tells exactly that subscriber exactly once
+//@ func subscriberRegistry.remove
+//@   requires invReg(reg)
+//@   modifies reg.topics[*], reg.revTopics[*], allmaps(reg.topics[topic]), allmaps(reg.revTopics[sub]), nClose
+//@   ensures invReg(reg) && !subscribed(reg, topic, sub) && othersSame(reg, topic, sub)
+//@   ensures old(subscribed(reg, topic, sub)) ==> nClose == upd(old(nClose), sub, upd(old(nClose)[sub], topic, old(nClose)[sub][topic] + 1))
+//@   ensures !old(subscribed(reg, topic, sub)) ==> nClose == old(nClose)
+
+//@ -- an event goes to exactly the current subscribers of its topic, once each
+//@ func subscriberRegistry.send
+//@   requires invReg(reg)
+//@   modifies nNext
+//@   ensures forall s Subscriber :: nNext[s][topic] == old(nNext)[s][topic] + ite(subscribed(reg, topic, s), 1, 0)
+//@   ensures forall s Subscriber, t Topic :: t != topic ==> nNext[s][t] == old(nNext)[s][t]
+//@   loop 1 invariant forall s Subscriber :: nNext[s][topic] == old(nNext)[s][topic] + ite(seen1[s], 1, 0)
+//@   loop 1 invariant forall s Subscriber, t Topic :: t != topic ==> nNext[s][t] == old(nNext)[s][t]
+
+//@ func subscriberRegistry.removeTopic
+//@   requires invReg(reg)
+//@   modifies reg.topics[*], reg.revTopics[*], allmaps(reg.topics[topic]), allmaps(reg.revTopics[topic]), nClose
+//@   ensures invReg(reg) && (forall s Subscriber :: !subscribed(reg, topic, s))
+//@   ensures forall t Topic, s Subscriber :: t != topic ==> (subscribed(reg, t, s) <==> old(subscribed(reg, t, s)))
+//@   ensures forall s Subscriber :: nClose[s][topic] == old(nClose)[s][topic] + ite(old(subscribed(reg, topic, s)), 1, 0)
+//@   ensures forall s Subscriber, t Topic :: t != topic ==> nClose[s][t] == old(nClose)[s][t]
+//@   loop 1 invariant invReg(reg)
+//@   loop 1 invariant forall s Subscriber :: subscribed(reg, topic, s) <==> (old(subscribed(reg, topic, s)) && !seen1[s])
+//@   loop 1 invariant forall t Topic, s Subscriber :: t != topic ==> (subscribed(reg, t, s) <==> old(subscribed(reg, t, s)))
+//@   loop 1 invariant forall s Subscriber :: nClose[s][topic] == old(nClose)[s][topic] + ite(seen1[s], 1, 0)
+//@   loop 1 invariant forall s Subscriber, t Topic :: t != topic ==> nClose[s][t] == old(nClose)[s][t]
+//@   loop 1 invariant forall s Subscriber :: dom1[s] <==> old(subscribed(reg, topic, s))
+
+//@ func subscriberRegistry.removeSubscriber
+//@   requires invReg(reg)
+//@   modifies reg.topics[*], reg.revTopics[*], allmaps(reg.topics[sub]), allmaps(reg.revTopics[sub]), nClose
+//@   ensures invReg(reg) && (forall t Topic :: !subscribed(reg, t, sub))
+//@   ensures forall t Topic, s Subscriber :: s != sub ==> (subscribed(reg, t, s) <==> old(subscribed(reg, t, s)))
+//@   ensures forall t Topic :: nClose[sub][t] == old(nClose)[sub][t] + ite(old(subscribed(reg, t, sub)), 1, 0)
+//@   ensures forall s Subscriber, t Topic :: s != sub ==> nClose[s][t] == old(nClose)[s][t]
+//@   loop 1 invariant invReg(reg)
+//@   loop 1 invariant forall t Topic :: subscribed(reg, t, sub) <==> (old(subscribed(reg, t, sub)) && !seen1[t])
+//@   loop 1 invariant forall t Topic, s Subscriber :: s != sub ==> (subscribed(reg, t, s) <==> old(subscribed(reg, t, s)))
+//@   loop 1 invariant forall t Topic :: nClose[sub][t] == old(nClose)[sub][t] + ite(seen1[t], 1, 0)
+//@   loop 1 invariant forall s Subscriber, t Topic :: s != sub ==> nClose[s][t] == old(nClose)[s][t]
+//@   loop 1 invariant forall t Topic :: dom1[t] <==> old(subscribed(reg, t, sub))
+
+//@ -- the command queue is first-in first-out
+//@ func publisher.queue
+//@   lenient
+//@   safety off
+//@   modifies ps.cmds
+//@   ensures ps.cmds == append(old(ps.cmds), cmd)
+//@ func publisher.dequeue
+//@   lenient
+//@   safety off
+//@   modifies ps.cmds
+//@   ensures len(old(ps.cmds)) > 0 ==> result == old(ps.cmds[0]) && ps.cmds == old(ps.cmds[1:])
+//@   -- assumption about API users (not proved): a subscribe command carries a non-nil subscriber
+//@   ensures result.op == subscribe ==> result.sub != nil
+
+//@ -- the dispatch loop: one command at a time, in queue order, each through the registry operation of its kind;
+//@ -- on shutdown every remaining subscription is ended (one OnClose each) and the registry is empty
+//@ func publisher.start
+//@   lenient
+//@   modifies alloc, ps.cmds, nNext, nClose, allmaps("map[Subscriber]struct{}"), allmaps("map[Topic]struct{}")
+//@   callsite subscriberRegistry.add: assert cmd.op == subscribe && $topic == topic && $sub == cmd.sub
+//@   callsite subscriberRegistry.send: assert cmd.op == pub && $topic == topic && $msg == cmd.msg
+//@   callsite subscriberRegistry.removeTopic: assert cmd.op == closeTopic && $topic == topic
+//@   callsite subscriberRegistry.removeSubscriber: assert cmd.op == unsubAll && $sub == cmd.sub
+//@   loop 1 invariant invReg(reg)
+//@   loop 2 invariant invReg(reg)
+//@   loop 3 invariant invReg(reg) && (forall t Topic :: seen3[t] ==> !(t in reg.topics)) && (forall t Topic :: t in reg.topics ==> dom3[t])
+//@   loop 4 invariant invReg(reg) && (forall s Subscriber :: seen4[s] ==> !subscribed(reg, topic, s))
+//@   loop 4 invariant (forall s Subscriber :: subscribed(reg, topic, s) ==> dom4[s]) && (forall t Topic :: t in reg.topics ==> dom3[t])
+//@   loop 4 invariant (forall t Topic :: seen3[t] ==> !(t in reg.topics))
+//@   callsite subscriberRegistry.remove: assert true
+
+//@ -- API: each call enqueues exactly one command of its kind (nothing once closed)
+//@ func publisher.Publish
+//@   lenient
+//@   safety off
+//@   modifies alloc, ps.cmds
+//@   callsite publisher.queue: assert $cmd.op == pub && len($cmd.topics) == 1 && $cmd.topics[0] == topic && $cmd.msg == event
+//@ func publisher.Close
+//@   lenient
+//@   safety off
+//@   modifies alloc, ps.cmds
+//@   callsite publisher.queue: assert $cmd.op == closeTopic && len($cmd.topics) == 1 && $cmd.topics[0] == id
+//@ func publisher.Subscribe
+//@   lenient
+//@   safety off
+//@   modifies alloc, ps.cmds
+//@   callsite publisher.queue: assert $cmd.op == subscribe && len($cmd.topics) == 1 && $cmd.topics[0] == topic && $cmd.sub == sub
+//@   ensures result ==> len(ps.cmds) == old(len(ps.cmds)) + 1
+//@ func publisher.Unsubscribe
+//@   lenient
+//@   safety off
+//@   modifies alloc, ps.cmds
+//@   callsite publisher.queue: assert $cmd.op == unsubAll && len($cmd.topics) == 0 && $cmd.sub == sub
+//@ func publisher.Shutdown
+//@   lenient
+//@   safety off
+//@   modifies alloc, ps.cmds
+//@   callsite publisher.queue: assert $cmd.op == shutdown && len($cmd.topics) == 0
